@@ -250,8 +250,38 @@ def classify_exc(exc: Optional[BaseException]) -> str:
 
 
 def run_case(wsp: Workspace, judge: Judge, audit: Audit, entry: str, fn: Callable[[], Any], p: str, base_kind: str,
-             absolute_capable: bool) -> Tuple[str, List[Dict[str, Any]]]:
-    """One call under audit. Returns (outcome class, list of problems)."""
+             absolute_capable: bool, call: Optional[Callable[[str], Callable[[], Any]]] = None,
+             ignore_rules: Sequence[str] = ()) -> Tuple[str, List[Dict[str, Any]]]:
+    """One call under audit. Returns (outcome class, list of problems). With `call` (string -> thunk) a failing
+    string is shrunk component-wise (delta debugging) before it is reported."""
+    outcome, problems = _run_case(wsp, judge, audit, entry, fn, p, base_kind, absolute_capable)
+    problems = [pr for pr in problems if pr["rule"] not in ignore_rules]
+    if problems and call is not None:
+        rules = {pr["rule"] for pr in problems}
+        best, best_problems = p, problems
+        improved = True
+        while improved:
+            improved = False
+            comps = best.split("/")
+            for i in range(len(comps)):
+                cand = "/".join(comps[:i] + comps[i + 1:])
+                if cand == best or (not cand and len(comps) == 1):
+                    continue
+                _o, prs = _run_case(wsp, judge, audit, entry, call(cand), cand, base_kind, absolute_capable)
+                prs = [pr for pr in prs if pr["rule"] in rules]
+                if prs:
+                    best, best_problems, improved = cand, prs, True
+                    break
+        for pr in best_problems:
+            pr["shrunk_from"] = p
+        problems = best_problems
+    for pr in problems:
+        pr["workspace"] = wsp.ws
+    return outcome, problems
+
+
+def _run_case(wsp: Workspace, judge: Judge, audit: Audit, entry: str, fn: Callable[[], Any], p: str, base_kind: str,
+              absolute_capable: bool) -> Tuple[str, List[Dict[str, Any]]]:
     esc = judge.escapes(p, absolute_capable)
     res, exc, events = audit.record(fn)
     outcome = classify_exc(exc)
